@@ -280,6 +280,37 @@ def task(arg):
                     V(f"C06/{name}/numpy-integer-seed/differs-from-python-int-seed", f"seed {seed} and the Python integer {ival} give different trajectories; {where}")
                 if not isinstance(seed, str):
                     plain[ival] = a[0]
+    # two replicas rebuilt from ONE in-memory dictionary (same seed state, atoms and configuration)
+    if cfg["ens"] not in ("ForceBias", "AdaptiveForceBias"):
+        try:
+            counters["evaluations"] += 1
+            counters["nontrivial"] += 1
+            spec0 = dict(cfg)
+            spec0["seed"] = 77
+            spec0["log"] = False
+            sysm = build(spec0)
+            for step in sysm.mc.irun(2):
+                for _ in step:
+                    pass
+            data = sysm.mc.to_dict()
+            cls = type(sysm.mc)
+            reps = []
+            for _k in range(2):
+                sim = cls.from_dict(data)
+                sim.atoms.calc = sysm.calc_factory()
+                frames = []
+                for step in sim.irun(3):
+                    for _ in step:
+                        pass
+                    frames.append((digest(atoms_snapshot(sim.atoms)), tuple((str(a), b) for a, b in sim.move_history)))
+                reps.append(frames)
+                sim.close()
+            sysm.close()
+            if reps[0] != reps[1]:
+                k = next(i for i, (x, y) in enumerate(zip(reps[0], reps[1])) if x != y)
+                V(f"C06/{name}/two-replicas-from-one-dictionary/trajectories-differ", f"two simulations rebuilt from the same to_dict() dictionary differ from step {k + 1}; {name} table {cfg.get('table', '')}")
+        except Exception as e:  # noqa: BLE001
+            V(f"C06/{name}/two-replicas-from-one-dictionary/exception:{type(e).__name__}", f"{e}"[:250])
     for h in sorted(set(mon.hits)):
         V(f"C06/{name}/global-generator-draw/{h}", f"a draw from a process-global generator was made while the simulation ran: {h}")
     ss = sorted(per_seed)
